@@ -376,7 +376,13 @@ def desugar_option_like(d):
             continue
         pidx = nf.index(1)
         pf = a["variants"][pidx]["fields"][0]
-        pt = T[pf["ty"]]
+        pt0 = T[pf["ty"]]
+        # the payload may be the record itself or a borrow of it (`enum Phase<'a, T> { Settled, Moving(&'a OldTable<T>) }`, a view of the state)
+        refs = []
+        pt = pt0
+        while pt.get("k") == "ref":
+            refs.append(bool(pt.get("mut")))
+            pt = T[pt["inner"]]
         pa = adts.get(pt.get("adt"))
         if pt.get("k") != "adt" or pa is None or pa.get("kind") != "Struct":
             continue
@@ -401,6 +407,15 @@ def desugar_option_like(d):
                         T.append({"s": "%s<%s>" % (pt["adt"].split("::", 1)[-1], ", ".join(T[x]["s"] for x in args)), "has_param": t.get("has_param"),
                                   "k": "adt", "adt": pt["adt"], "args": list(args)})
                         inner = len(T) - 1
+                    for m_ in reversed(refs):
+                        found = None
+                        for j, u in enumerate(T):
+                            if u.get("k") == "ref" and bool(u.get("mut")) == m_ and u.get("inner") == inner:
+                                found = j
+                        if found is None:
+                            T.append({"s": "&%s%s" % ("mut " if m_ else "", T[inner]["s"]), "has_param": t.get("has_param"), "k": "ref", "mut": m_, "inner": inner})
+                            found = len(T) - 1
+                        inner = found
                 t["desugared_from"] = E
                 t["adt"] = "core::option::Option"
                 t["args"] = [inner]
